@@ -2820,3 +2820,206 @@ func ruleRemStoreFirst(prop string) ruleFn {
 		}
 	}
 }
+
+// IDX-ROLLBACK (C01, C06, C10): a replacement that fails leaves the replaced rule dispatchable.
+func ruleIdxRollback(prop string) ruleFn {
+	return func(w *World, r *Report) {
+		r.Rule("IDX-ROLLBACK", "in the IndexedState function that replaces a stored fact (it un-indexes the stored rule and indexes the incoming one), every error return that lies behind the successful un-indexing of the stored rule is preceded by a call that indexes that same stored rule again (edges on which there was no stored event rule deleted): until the new fact is in, the old one is still what is stored under the id, and a refused replacement (a `when` that cannot be indexed, a schedule the cron refuses) must not leave it stored but never dispatched again", 1)
+		n := w.Named("core", "IndexedState")
+		idx := w.Method("core", "IndexedState", "indexRule")
+		unidx := w.Method("core", "IndexedState", "unindexRule")
+		prevSrc := func(v ssa.Value) bool {
+			return dependsOn(v, func(x ssa.Value) bool {
+				lk, ok := x.(*ssa.Lookup)
+				return ok && isFieldLoad(lk.X, "core.IndexedState", "IdToFact")
+			})
+		}
+		found := 0
+		for _, fn := range w.MethodsOf(n) {
+			var us []*ssa.Call
+			callsIndex := false
+			allInstrs(fn, func(in ssa.Instruction) {
+				c, ok := in.(*ssa.Call)
+				if !ok {
+					return
+				}
+				if c.Common().StaticCallee() == idx {
+					callsIndex = true
+				}
+				if c.Common().StaticCallee() == unidx && len(c.Call.Args) >= 4 && prevSrc(c.Call.Args[3]) {
+					us = append(us, c)
+				}
+			})
+			if len(us) == 0 || !callsIndex {
+				continue
+			}
+			found++
+			key := "fn=" + fname(fn)
+			del := map[bedge]bool{}
+			for _, b := range fn.Blocks {
+				if len(b.Instrs) == 0 {
+					continue
+				}
+				ifi, ok := b.Instrs[len(b.Instrs)-1].(*ssa.If)
+				if !ok {
+					continue
+				}
+				ct, ok := decodeIf(ifi)
+				if !ok {
+					continue
+				}
+				v := resolveSpill(ct.V)
+				// the error edge of the un-indexing itself, and the edges on which there is no stored rule to restore
+				isU := false
+				for _, u := range us {
+					if v == ssa.Value(u) {
+						isU = true
+					}
+				}
+				switch {
+				case isU && ct.TrueWhen == "nonnil":
+					del[bedge{b, 0}] = true
+				case isU && ct.TrueWhen == "nil":
+					del[bedge{b, 1}] = true
+				case !isErrorType(v.Type()) && prevSrc(v) && ct.TrueWhen == "nonnil":
+					del[bedge{b, 1}] = true
+				case !isErrorType(v.Type()) && prevSrc(v) && ct.TrueWhen == "nil":
+					del[bedge{b, 0}] = true
+				}
+			}
+			isRestore := func(in ssa.Instruction) bool {
+				c := callOf(in)
+				return c != nil && c.StaticCallee() == idx && len(c.Args) >= 4 && prevSrc(c.Args[3])
+			}
+			isErrRet := func(in ssa.Instruction) bool {
+				_, ok := in.(*ssa.Return)
+				return ok && !isSuccessReturnPS(in)
+			}
+			bad := false
+			for _, u := range us {
+				if h, path := reach(fn, u, isErrRet, isRestore, edgeFilterOf(del)); h != nil {
+					r.violation("IDX-ROLLBACK", key, w.PosOf(h), "after the stored rule was taken out of the index, the replacement can fail and return without putting it back: the stored rule is never dispatched again", blockPathString(w, path)...)
+					bad = true
+					break
+				}
+			}
+			if !bad {
+				r.ok("IDX-ROLLBACK", key, w.PosOf(us[0]), "every failure behind the un-indexing re-indexes the stored rule")
+			}
+		}
+		if found == 0 {
+			r.exempt("IDX-ROLLBACK", "type=core.IndexedState", w.Pos(n.Obj().Pos()), "no function both un-indexes a stored rule and indexes a new one: shape not recognised, not decided")
+		}
+	}
+}
+
+// IDX-ORDER (C01, C04): writer and reader of the pattern trie splice nested pairs in at the same end.
+func ruleIdxOrder(prop string) ruleFn {
+	return func(w *World, r *Report) {
+		r.Rule("IDX-ORDER", "sibling agreement between PatternIndex.mod (writer) and searchPairs (reader): wherever the remaining pairs (`pairs[1:]`) are combined with the pairs of a nested map or array by append, the nested pairs come first and the remaining pairs follow (`append(nested, rest...)`), in both functions: the trie is a sequence of keys, so a reader that walks the nested elements after the later keys looks under nodes the writer never created, and a rule with an array pattern under an earlier key is never a candidate", 4)
+		for _, name := range []string{"mod", "searchPairs"} {
+			fn := w.Method("core", "PatternIndex", name)
+			var pairs *ssa.Parameter
+			for _, p := range fn.Params {
+				if _, ok := p.Type().Underlying().(*types.Slice); ok {
+					pairs = p
+				}
+			}
+			if pairs == nil {
+				undecided("IDX-ORDER: %s has no slice parameter", fname(fn))
+			}
+			isRest := func(v ssa.Value) bool {
+				sl, ok := v.(*ssa.Slice)
+				if !ok || !valueIs(sl.X, pairs) || sl.Low == nil {
+					return false
+				}
+				c, ok := sl.Low.(*ssa.Const)
+				return ok && c.Value != nil && c.Int64() >= 1
+			}
+			n := 0
+			allInstrs(fn, func(in ssa.Instruction) {
+				c, ok := isBuiltinCall(in, "append")
+				if !ok || len(c.Call.Args) != 2 || !types.Identical(c.Type(), pairs.Type()) {
+					return
+				}
+				// a splice: a variadic append of two pair lists (not the element-wise building of a list)
+				if len(appendedElems(c)) > 0 {
+					return
+				}
+				a0, a1 := c.Call.Args[0], c.Call.Args[1]
+				r0, r1 := dependsOnFS(a0, isRest), dependsOnFS(a1, isRest)
+				if !r0 && !r1 {
+					return
+				}
+				n++
+				key := "fn=" + fname(fn) + " splice#" + itoa(n)
+				switch {
+				case r1 && !r0:
+					r.ok("IDX-ORDER", key, w.PosOf(in), "nested pairs first, remaining pairs after")
+				case r0 && !r1:
+					r.violation("IDX-ORDER", "fn="+fname(fn), w.PosOf(in), "the remaining pairs come first and the nested pairs are appended after them: this walk visits the trie in another order than its sibling")
+				default:
+					r.exempt("IDX-ORDER", key, w.PosOf(in), "both operands depend on the remaining pairs: not decided")
+				}
+			})
+			if n == 0 {
+				r.exempt("IDX-ORDER", "fn="+fname(fn), w.Pos(fn.Pos()), "no splice of nested and remaining pairs: shape not recognised, not decided")
+			}
+		}
+	}
+}
+
+// TERM-PREPARED (C02, C03): what is indexed is what is stored.
+func ruleTermPrepared(prop string) ruleFn {
+	return func(w *World, r *Report) {
+		r.Rule("TERM-PREPARED", "in IndexedState.add the terms put into the fact index are extracted from the very value that is stored in the fact map (the result of PrepareFact), not from the caller's raw map: PrepareFact rewrites properties (ttl becomes expires, the id is injected), and a search re-matches against the stored value — terms taken from the raw map miss exactly the rewritten properties, so a pattern that names them gets no candidates", 1)
+		fn := w.Method("core", "IndexedState", "add")
+		et := w.Func("core", "ExtractTerms")
+		key := "fn=" + fname(fn)
+		var stored []ssa.Value
+		allInstrs(fn, func(in ssa.Instruction) {
+			if mu, ok := in.(*ssa.MapUpdate); ok && isFieldLoad(mu.Map, "core.IndexedState", "IdToFact") {
+				stored = append(stored, mu.Value)
+			}
+		})
+		var calls []*ssa.Call
+		allInstrs(fn, func(in ssa.Instruction) {
+			if c, ok := in.(*ssa.Call); ok && c.Common().StaticCallee() == et {
+				calls = append(calls, c)
+			}
+		})
+		if len(stored) == 0 || len(calls) == 0 {
+			r.exempt("TERM-PREPARED", key, w.Pos(fn.Pos()), "add does not both call ExtractTerms and store into the fact map itself: shape not recognised, not decided")
+			return
+		}
+		strip := func(v ssa.Value) ssa.Value {
+			for i := 0; i < 4; i++ {
+				switch x := v.(type) {
+				case *ssa.ChangeType:
+					v = x.X
+				case *ssa.MakeInterface:
+					v = x.X
+				case *ssa.Convert:
+					v = x.X
+				default:
+					return v
+				}
+			}
+			return v
+		}
+		for _, c := range calls {
+			arg := strip(c.Call.Args[len(c.Call.Args)-1])
+			same := false
+			for _, sv := range stored {
+				if sameValue(strip(sv), arg) {
+					same = true
+				}
+			}
+			if same {
+				r.ok("TERM-PREPARED", key, w.PosOf(c), "terms are extracted from the stored value")
+			} else {
+				r.violation("TERM-PREPARED", key, w.PosOf(c), "the indexed terms are extracted from another value than the one stored in the fact map: properties rewritten by PrepareFact are not indexed")
+			}
+		}
+	}
+}
